@@ -1320,3 +1320,80 @@ Proof.
   - split; [intros H; inversion H; right; right; left; repeat split|].
     intros [[H _]|[(_ & H & _)|[(_ & _ & _ & ->)|(_ & _ & H & _)]]]; [discriminate|discriminate|reflexivity|contradiction].
 Qed.
+
+(* ---------------------------------------------------------------- every id exactly once *)
+Lemma partition_concat_NoDup t a lab ign parts :
+  wf t -> partition_t t a lab ign false = ROk parts ->
+  forall ps, (forall lp, In lp ps -> In lp parts) -> NoDup (map fst ps) ->
+  NoDup (concat (map (fun lp => ids a (snd lp)) ps)).
+Proof.
+  intros W H. destruct (partition_exact t a lab ign parts W H) as (_ & _ & _ & P). cbv zeta in P.
+  induction ps as [|[l p] ps IH]; intros Hsub Hn; simpl; [constructor|].
+  inversion Hn as [|? ? Hl Hn']; subst.
+  assert (In (l, p) parts) as Hp by (apply Hsub; left; reflexivity).
+  apply NoDup_app_intro.
+  - destruct (P l p Hp) as (_ & _ & _ & _ & _ & _ & _ & Wp). destruct Wp as (_ & _ & W3 & W4 & _). destruct a; assumption.
+  - apply IH; [intros lp Hlp; apply Hsub; right; exact Hlp|exact Hn'].
+  - intros x Hx Hx'. apply in_concat in Hx'. destruct Hx' as [l0 [Hl0 Hx0]].
+    apply in_map_iff in Hl0. destruct Hl0 as [[l' p'] [E Hin]]. simpl in E. subst l0.
+    assert (In (l', p') parts) as Hp' by (apply Hsub; right; exact Hin).
+    pose proof (partition_disjoint t a lab ign parts l p l' p' x W H Hp Hp' Hx Hx0) as El. subst l'.
+    apply Hl. apply in_map_iff. exists (l, p'). split; [reflexivity|exact Hin].
+Qed.
+
+(* the parts together hold every id whose label is not ignored exactly once *)
+Theorem partition_cover_once t a lab ign parts :
+  wf t -> partition_t t a lab ign false = ROk parts ->
+  Permutation (concat (map (fun lp => ids a (snd lp)) parts))
+              (select (map (fun l => negb (ign && Z.eqb l NONE_LABEL)) (labels_of lab (ids a t))) (ids a t)).
+Proof.
+  intros W H. destruct (partition_exact t a lab ign parts W H) as (Ll & Hk & K & P). cbv zeta in *.
+  assert (Hn : NoDup (ids a t)) by (destruct W as (_ & _ & W3 & W4 & _); destruct a; assumption).
+  apply NoDup_Permutation.
+  - apply (partition_concat_NoDup t a lab ign parts W H parts); [intros lp Hlp; exact Hlp|exact Hk].
+  - apply select_NoDup. exact Hn.
+  - intros x. rewrite (select_map_In (fun l => negb (ign && Z.eqb l NONE_LABEL))). split.
+    + intros Hx. apply in_concat in Hx. destruct Hx as [l0 [Hl0 Hx]]. apply in_map_iff in Hl0.
+      destruct Hl0 as [[l p] [E Hp]]. simpl in E. subst l0.
+      destruct (P l p Hp) as (Ei & _). rewrite Ei in Hx. apply select_map_In in Hx.
+      destruct Hx as [i [l' [H1 [H2 H3]]]]. apply Z.eqb_eq in H3. subst l'.
+      exists i, l. repeat split; try assumption.
+      assert (In l (map fst parts)) as Hin by (apply in_map_iff; exists (l, p); split; [reflexivity|exact Hp]).
+      apply K in Hin. destruct Hin as [_ Hkept]. apply (proj2 (kept_iff ign l)). exact Hkept.
+    + intros [i [l [H1 [H2 H3]]]]. fold (kept ign l) in H3. pose proof (proj1 (kept_iff ign l) H3) as H3'.
+      destruct (partition_cover t a lab ign parts i x l W H H1 H2 H3') as [p [Hp Hx]].
+      apply in_concat. exists (ids a p). split; [|exact Hx].
+      apply in_map_iff. exists (l, p). split; [reflexivity|exact Hp].
+Qed.
+
+(* ---------------------------------------------------------------- remove_empty on a part *)
+Theorem remove_empty_whole_cell p o s :
+  wf p -> In o (oids (remove_empty_whole p)) -> In s (sids (remove_empty_whole p)) ->
+  cell (remove_empty_whole p) o s = cell p o s.
+Proof.
+  intros W Ho Hs. unfold remove_empty_whole, remove_empty_axis in *.
+  set (p1 := filter_mask (nonempty_mask Samp p) Samp p) in *.
+  assert (W1 : wf p1) by (apply wf_filter_mask; exact W).
+  rewrite filter_mask_cell by assumption.
+  assert (Ho1 : In o (oids p1)).
+  { change (oids (filter_mask (nonempty_mask Obs p1) Obs p1)) with (select (nonempty_mask Obs p1) (oids p1)) in Ho.
+    eapply select_In. exact Ho. }
+  assert (Hs1 : In s (sids p1)) by exact Hs.
+  apply filter_mask_cell; assumption.
+Qed.
+
+Theorem remove_empty_whole_ids p :
+  (forall s, In s (sids (remove_empty_whole p)) <->
+     exists j, j < length (sids p) /\ nth j (sids p) 0%Z = s /\ all_zero (vec Samp p j) = false) /\
+  (forall o, In o (oids (remove_empty_whole p)) <->
+     exists i, i < length (oids p) /\ nth i (oids p) 0%Z = o /\
+               all_zero (vec Obs (remove_empty_axis Samp p) i) = false).
+Proof.
+  split.
+  - intros s. unfold remove_empty_whole.
+    change (sids (remove_empty_axis Obs (remove_empty_axis Samp p))) with (ids Samp (remove_empty_axis Samp p)).
+    apply (remove_empty_ids Samp p s).
+  - intros o. unfold remove_empty_whole.
+    change (oids (remove_empty_axis Obs (remove_empty_axis Samp p))) with (ids Obs (remove_empty_axis Obs (remove_empty_axis Samp p))).
+    rewrite (remove_empty_ids Obs (remove_empty_axis Samp p) o). reflexivity.
+Qed.
